@@ -191,7 +191,7 @@ BUILTIN_NAMES.update({
         FunctionType('dir', returns=lambda: ListType(False, StrType())),
         FunctionType('divmod', returns=lambda: TupleType([IntType(), IntType()])),
         FunctionType('enumerate', definition=enumerate_definition),
-        FunctionType('filter', definition='identity'),
+        FunctionType('filter', returns='identity'),
         str_function('format'),
         FunctionType('getattr', returns=AnyType),
         FunctionType('globals', returns=lambda: DictType([(StrType(), AnyType())])),
@@ -217,10 +217,10 @@ BUILTIN_NAMES.update({
         void_function('print'),
         FunctionType('range', returns=lambda: ListType(False, IntType())),
         str_function('repr'),
-        FunctionType('reversed', definition='identity'),
+        FunctionType('reversed', returns='identity'),
         FunctionType('round', definition=round_definition),
         void_function('setattr'),
-        FunctionType('sorted', definition='identity'),
+        FunctionType('sorted', returns='identity'),
         FunctionType('staticmethod', returns='identity'),
         num_function('sum'),
         FunctionType('super', returns='identity'), # TODO: This is not quite right, should really be parent type
